@@ -200,12 +200,22 @@ Print Assumptions C05_error_line_col.
         directly nested such constructs that stands in the top-level body or in a
         formula body ([C05_fault_closing_brace_in_groups_partial]): every
         construct of the chain is closed one brace early, the error "unexpected
-        closing brace" is AT the closing brace of the outermost one.
+        closing brace" is AT the closing brace of the outermost one;
+      - [\)] / [\]] inserted in a formula of the same kind whose remaining body is
+        also well formed outside math mode
+        ([C05_fault_closing_math_same_partial]): the formula closes early, its own
+        closing delimiter is rejected;
+      - [{] inserted in a group, itself in a chain of directly nested groups that
+        stands at top level ([C05_fault_opening_brace_in_groups_partial]: the
+        outermost group of the chain is never closed, error 6 right after its
+        opening brace, raised at the end of input) or in a [\( \)] / [\[ \]]
+        formula ([C05_fault_opening_brace_in_groups_math_partial]: rejected at
+        the formula's closing delimiter).
     NOT covered (differential testing only): [}] inserted in a macro argument
     that is not the last one or that changes the math mode (what follows is read
-    as the next argument / in another mode), [\)] / [\]] inside a formula of the same kind, [$]
-    used as a closing delimiter, [{] inserted in a group or macro argument (the
-    enclosing closing brace closes it), an opening delimiter inserted in a
+    as the next argument / in another mode), [$] used as a closing delimiter,
+    [{] inserted in a macro argument or in a group chain standing in a [$ $]
+    formula or macro argument, an opening delimiter inserted in a
     [$ $] formula, a math delimiter or math-body environment in front of items
     that contain a formula, environments with arguments, insertion points inside
     an item (between the tokens of a macro call, inside whitespace), the grammar
@@ -338,6 +348,58 @@ Theorem C05_fault_closing_brace_in_groups_partial : forall cx outer chain l1 l2 
     /\ pe_pos e = Some q /\ pe_what e = 2.
 Proof. exact fault_closing_brace_chain. Qed.
 
+(** ** A closing math delimiter [\)] / [\]] inserted in a formula of the SAME
+    kind ([f = FMath b ws k tr a], [k <> MDollar]) closes it early; the rest
+    [l2] of the formula body is then read in the enclosing body, outside math
+    mode — hypothesis: it is well formed there too — and the formula's own
+    closing delimiter is left over: "unexpected closing math delimiter" (4)
+    located at it.  ([closes_hole (lefts path) (SMClose k) = false] holds for
+    every well-formed document: a formula does not stand directly in a formula.) *)
+Theorem C05_fault_closing_math_same_partial : forall cx path b ws k tr a l1 l2 dtr,
+  k <> MDollar ->
+  let f := FMath b ws k tr a in
+  let hs := lp_state cx (walker_state cx) (lefts path) in
+  ok_doc cx (zdoc (path ++ [f]) l1 l2 dtr) = true ->
+  closes_hole (lefts path) (SMClose k) = false ->
+  ok_items cx hs l2 (hd_error (tr ++ m_close k)) = true ->
+  let L := b ++ Math ws k l1 [] :: l2 in
+  let q := length (lp_text (lefts path)) + length (unparse_items L) + length tr in
+  exists e,
+    parse_top (zleft (path ++ [f]) l1 ++ m_close k ++ zright (path ++ [f]) l2 dtr) false cx (walker_state cx)
+    = PErr e (q + 2)
+    /\ pe_pos e = Some q /\ pe_what e = 4.
+Proof. exact fault_close_math_same. Qed.
+
+(** ** An opening brace inserted in a group: the group's closing brace closes
+    the NEW group, the enclosing group's closing brace closes the group, and so
+    on outwards through the chain [chain] of directly nested groups; the
+    outermost group of the chain ([chain_head chain] = the items before it and
+    the whitespace before its brace) is left without a closing brace and
+    swallows what follows ([late chain l1 l2] = its body as the faulted text
+    reads).  Standing at top level it is rejected when the input ends, error 6
+    located right after its opening brace; standing in a [\( \)] or [\[ \]]
+    formula [g] it runs into the formula's closing delimiter, rejected there. *)
+Theorem C05_fault_opening_brace_in_groups_partial : forall cx chain l1 l2 dtr,
+  forallb is_grp chain = true -> chain <> [] ->
+  ok_doc cx (zdoc chain l1 l2 dtr) = true ->
+  let s := zleft chain l1 ++ [123%N] ++ zright chain l2 dtr in
+  let q := length (unparse_items (fst (chain_head chain))) + length (snd (chain_head chain)) + 1 in
+  exists e, parse_top s false cx (walker_state cx) = PErr e (length s) /\ pe_pos e = Some q /\ pe_what e = 6.
+Proof. exact fault_open_brace_chain_top. Qed.
+
+Theorem C05_fault_opening_brace_in_groups_math_partial : forall cx outer g chain l1 l2 dtr c,
+  forallb is_grp chain = true -> chain <> [] ->
+  closer_of g = Some c -> c <> SBrace ->
+  ok_doc cx (zdoc ((outer ++ [g]) ++ chain) l1 l2 dtr) = true ->
+  let q := length (lp_text (lefts (outer ++ [g]))) + length (unparse_items (fst (chain_head chain)))
+           + length (snd (chain_head chain)) + 1 + length (unparse_items (late chain l1 l2)) + length (frame_tr g) in
+  exists e,
+    parse_top (zleft ((outer ++ [g]) ++ chain) l1 ++ [123%N] ++ zright ((outer ++ [g]) ++ chain) l2 dtr)
+              false cx (walker_state cx)
+    = PErr e (q + length (stray_text c))
+    /\ pe_pos e = Some q /\ pe_what e = stray_what c.
+Proof. exact fault_open_brace_chain_math. Qed.
+
 (** ** Non-vacuity *)
 Open Scope N_scope.
 
@@ -463,6 +525,40 @@ Proof.
   eexists; repeat split.
 Qed.
 
+(** [a \(b c\) d]: [\)] inserted between [b] and [ c] closes the formula, [ c] is
+    read as text, the formula's own [\)] (offset 9 of the faulted text) is rejected *)
+Example C05_fault_closing_math_same_nonvacuous :
+  let f := FMath [Text [] [97]] [32] MParen [] [Text [32] [100]] in
+  let l1 := [Text [] [98]] in let l2 := [Text [32] [99]] in
+  ok_doc default_ctx (zdoc [f] l1 l2 []) = true /\
+  unparse (zdoc [f] l1 l2 []) = [97;32;92;40;98;32;99;92;41;32;100] /\
+  ok_items default_ctx (walker_state default_ctx) l2 (Some 92) = true /\
+  exists e, parse_top (zleft [f] l1 ++ m_close MParen ++ zright [f] l2 []) false default_ctx (walker_state default_ctx)
+            = PErr e 11 /\ pe_pos e = Some 9%nat /\ pe_what e = 4%nat.
+Proof. vm_compute. repeat split. eexists. repeat split. Qed.
+
+(** [a {b {c d} e} f]: [{] inserted between [c] and [ d]: the outer group (opened
+    at offset 2) is never closed, error 6 located at offset 3, raised at the end;
+    and the same chain inside [\( \)]: rejected at [\)] *)
+Example C05_fault_opening_brace_in_groups_nonvacuous :
+  let chain := [FGrp [Text [] [97]] [32] [] [Text [32] [102]]; FGrp [Text [] [98]] [32] [] [Text [32] [101]]] in
+  let g := FMath [] [] MParen [] [] in
+  let chain' := [FGrp [Text [] [97]] [32] [] [Text [32] [102]]; FGrp [Text [] [98]] [32] [] [Text [32] [101]]] in
+  let l1 := [Text [] [99]] in let l2 := [Text [32] [100]] in
+  ok_doc default_ctx (zdoc chain l1 l2 []) = true /\
+  unparse (zdoc chain l1 l2 []) = [97;32;123;98;32;123;99;32;100;125;32;101;125;32;102] /\
+  (exists e, parse_top (zleft chain l1 ++ [123] ++ zright chain l2 []) false default_ctx (walker_state default_ctx)
+             = PErr e 16 /\ pe_pos e = Some 3%nat /\ pe_what e = 6%nat) /\
+  ok_doc default_ctx (zdoc (([] ++ [g]) ++ chain') l1 l2 []) = true /\
+  unparse (zdoc (([] ++ [g]) ++ chain') l1 l2 []) = [92;40;97;32;123;98;32;123;99;32;100;125;32;101;125;32;102;92;41] /\
+  (exists e, parse_top (zleft (([] ++ [g]) ++ chain') l1 ++ [123] ++ zright (([] ++ [g]) ++ chain') l2 []) false
+                       default_ctx (walker_state default_ctx)
+             = PErr e 20 /\ pe_pos e = Some 18%nat /\ pe_what e = 4%nat).
+Proof.
+  vm_compute. split; [reflexivity|]. split; [reflexivity|]. split; [eexists; repeat split|].
+  split; [reflexivity|]. split; [reflexivity|]. eexists; repeat split.
+Qed.
+
 Print Assumptions C05_zdoc_text.
 Print Assumptions C05_fault_closing_partial.
 Print Assumptions C05_fault_closing_any_suffix_partial.
@@ -470,3 +566,6 @@ Print Assumptions C05_fault_opening_partial.
 Print Assumptions C05_fault_opening_nested_partial.
 Print Assumptions C05_fault_opening_any_suffix_partial.
 Print Assumptions C05_fault_closing_brace_in_groups_partial.
+Print Assumptions C05_fault_closing_math_same_partial.
+Print Assumptions C05_fault_opening_brace_in_groups_partial.
+Print Assumptions C05_fault_opening_brace_in_groups_math_partial.
